@@ -310,11 +310,19 @@ def arms_builtin(repo, res, rule="ARMS"):
         res.undecided(rule, f"{rule}:{fq}", "function not found")
         return
     envs = A.collect_envs(fn)
-    matches = [n for n in A.walk(fn.body) if n["k"] == "Match"]
+    # the per-shell tables: matches on the shell parameter here, or in the helpers of the module this function calls (one helper per
+    # builtin after a split)
+    holders = [(fn, envs)]
+    for h in repo.fns_in(fn.module):
+        if h is not fn and list(P.find_calls(fn.body, names={h.name})) and any("Shell" in (prm.get("ty") or "") for prm in h.params):
+            holders.append((h, A.collect_envs(h)))
+    matches = [(n, he) for hf, he in holders for n in A.walk(hf.body) if n["k"] == "Match"]
+    owner = {id(n): hf for hf, he in holders for n in A.walk(hf.body) if n["k"] == "Match"}
     n_arms = 0
     spec_kind = {}
-    for mt in matches:
-        p = A.resolve(mt["scrut"], envs.get(id(mt)))
+    helper_kind = {}
+    for mt, menv in matches:
+        p = A.resolve(mt["scrut"], menv.get(id(mt)))
         if not (p[0] == "param"):
             continue
         texts = {}
@@ -331,6 +339,8 @@ def arms_builtin(repo, res, rule="ARMS"):
             res.check(not foreign, rule, f"{rule}:{fq}:{shell}@{len(spec_kind)}", f"{shell} arm command {text!r}" + (f" contains another shell's vocabulary {foreign}" if foreign else ""), f"{fn.file}:{mt['l']}")
         alltext = " ".join(texts.values()).lower()
         spec_kind[id(mt)] = "directory" if ("director" in alltext and "-/" in alltext) else "file"
+        if owner[id(mt)] is not fn:
+            helper_kind[owner[id(mt)].name] = spec_kind[id(mt)]
     res.check(n_arms >= 8, rule, f"{rule}:{fq}:count", f"{n_arms} shell arms inspected", fn.loc())
     # PATH <- file spec ; DIRECTORY <- directory spec
     for c in P.find_calls(fn.body, methods={"insert_entry", "insert"}):
@@ -346,6 +356,10 @@ def arms_builtin(repo, res, rule="ARMS"):
             df = env.get(arg["path"])
             if df is not None and df.init is not None and df.init["k"] == "Match":
                 kind = spec_kind.get(id(df.init))
+            elif df is not None and df.init is not None and df.init["k"] == "Call" and df.init["func"]["k"] == "Path":
+                kind = helper_kind.get(df.init["func"]["path"].split("::")[-1])
+        elif arg["k"] == "Call" and arg["func"]["k"] == "Path":
+            kind = helper_kind.get(arg["func"]["path"].split("::")[-1])
         if keyname in ("PATH", "DIRECTORY"):
             want = "file" if keyname == "PATH" else "directory"
             res.check(kind == want, rule, f"{rule}:{fq}:{keyname}", f"<{keyname}> gets the {kind} completion spec", f"{fn.file}:{c['l']}")
